@@ -30,6 +30,10 @@ structure TrFacts where
   serverReadFinishedSumFirst : Bool
   ccsGuards : List String
   handshakeGuards : List String
+  /-- the guards of these two cases whose body ends the connection with a fatal alert, as
+  `"<condition> => <alert>"` (a guard that is present but drops / retries is not listed) -/
+  ccsFatal : List String
+  handshakeFatal : List String
   versionCheck : String
   clientCompare : String
   serverCompare : String
@@ -66,6 +70,7 @@ def tlcpTr : TrFacts :=
     serverReadFinishedAdds := Facts.tlcp.trServerReadFinishedAdds,
     serverReadFinishedSumFirst := Facts.tlcp.trServerReadFinishedSumBeforeAdd,
     ccsGuards := Facts.tlcp.trCcsGuards, handshakeGuards := Facts.tlcp.trHandshakeGuards,
+    ccsFatal := Facts.tlcp.trCcsFatalGuards, handshakeFatal := Facts.tlcp.trHandshakeFatalGuards,
     versionCheck := Facts.tlcp.trVersionCheck, clientCompare := Facts.tlcp.trClientFinishedCompare,
     serverCompare := Facts.tlcp.trServerFinishedCompare,
     codecTypes := Facts.tlcp.trMsgCodecTypes, rawKept := Facts.tlcp.trRawKeptTypes,
@@ -89,6 +94,7 @@ def dtlcpTr : TrFacts :=
     serverReadFinishedAdds := Facts.dtlcp.trServerReadFinishedAdds,
     serverReadFinishedSumFirst := Facts.dtlcp.trServerReadFinishedSumBeforeAdd,
     ccsGuards := Facts.dtlcp.trCcsGuards, handshakeGuards := Facts.dtlcp.trHandshakeGuards,
+    ccsFatal := Facts.dtlcp.trCcsFatalGuards, handshakeFatal := Facts.dtlcp.trHandshakeFatalGuards,
     versionCheck := Facts.dtlcp.trVersionCheck, clientCompare := Facts.dtlcp.trClientFinishedCompare,
     serverCompare := Facts.dtlcp.trServerFinishedCompare,
     codecTypes := Facts.dtlcp.trMsgCodecTypes, rawKept := Facts.dtlcp.trRawKeptTypes,
@@ -143,9 +149,14 @@ def flagsOf (t : TrFacts) : TFlags :=
     sCVAddedAfter := t.serverFullAdds.getLast? == some "certVerify",
     sFinReadNil := t.serverReadFinishedReads == [false],
     sFinAddedAfter := t.serverReadFinishedAdds == ["clientFinished"] && t.serverReadFinishedSumFirst,
-    ccsNeedsEmptyHand := t.ccsGuards.contains "c.hand.Len() > 0",
-    ccsNeedsExpect := t.ccsGuards.contains "!expectChangeCipherSpec",
-    hsRefusedWhenCCSExpected := t.handshakeGuards.contains "len(data) == 0 || expectChangeCipherSpec",
+    -- the guard is there AND its body is the fatal alert (a guard that drops the record and reads on
+    -- is a different machine: the model refuses)
+    ccsNeedsEmptyHand := t.ccsGuards.contains "c.hand.Len() > 0" &&
+      t.ccsFatal.contains "c.hand.Len() > 0 => alertUnexpectedMessage",
+    ccsNeedsExpect := t.ccsGuards.contains "!expectChangeCipherSpec" &&
+      t.ccsFatal.contains "!expectChangeCipherSpec => alertUnexpectedMessage",
+    hsRefusedWhenCCSExpected := t.handshakeGuards.contains "len(data) == 0 || expectChangeCipherSpec" &&
+      t.handshakeFatal.contains "len(data) == 0 || expectChangeCipherSpec => alertUnexpectedMessage",
     finFullCompare := t.clientCompare == fullCompare "serverFinished" && t.serverCompare == fullCompare "clientFinished",
     versCheckedOnlyWhenHave := t.versionCheck == "c.haveVers && vers != c.vers",
     decodedKeepRaw := !t.addedTypes.isEmpty && t.addedTypes.all (fun ty => t.rawKept.contains ty && t.codecTypes.contains ty) &&
